@@ -18,8 +18,15 @@
    C14_f1_on_nonnegatives (the whole range p, r >= 0 incl. the degenerate point p = r = 0, the only
    one with p + r = 0: the formula gives 0 in every field with total division; IEEE floats give
    NaN there and are not modelled).
-   Limits: theorems are over (ordered) fields, not IEEE floats; float behaviour of softmax is
-   covered by the oracle op 7 of the correspondence only. *)
+   Wave 3: C14_var_one_pass_same_in_every_field / C14_cov_one_pass_same_in_every_field: E[x^2] - E[x]^2
+   and E[xy] - E[x]E[y] ARE the population variance / covariance in every field, i.e. the exact
+   element types of the correspondence provably cannot see a one-pass refactoring — the float tier
+   (ops 8 - 11: f64 / f32 mean, variance, covariance, f1, softmax against the population formulas
+   evaluated exactly in big-integer arithmetic on the rounded inputs, inside a stated rounding
+   budget; covariance symmetric, diagonal = variance and the three routes equal BIT FOR BIT) does,
+   on data with a large common offset.
+   Limits: theorems are over (ordered) fields, not IEEE floats; float behaviour is covered by
+   the oracle ops 7 - 11 of the correspondence only (IEEE arithmetic is not modelled). *)
 From Coq Require Import List Arith NArith Reals Lra.
 From EasyML Require Import Base.Sx Model.Num Model.Stats Proofs.C14P Proofs.RealOps.
 Import ListNotations.
@@ -250,6 +257,24 @@ Theorem C14_f1_on_nonnegatives : forall R (ops : numops R) (lt : R -> R -> Prop)
   (nadd ops p r = nzero ops -> p = nzero ops /\ r = nzero ops).
 Proof. exact @f1_on_nonnegatives. Qed.
 
+(* ---- wave 3 ---- *)
+(* the one-pass formulas are the population variance / covariance in EVERY field (N <> 0 in the
+   field): no exact element type distinguishes the two-pass code from a one-pass rewrite *)
+Theorem C14_var_one_pass_same_in_every_field : forall R (ops : numops R), is_field ops ->
+  forall l : list R, natR ops (length l) <> nzero ops ->
+  var_spec ops l =
+  nsub ops (ndiv ops (sumR ops (map (fun x => nmul ops x x) l)) (natR ops (length l)))
+           (nmul ops (mean_spec ops l) (mean_spec ops l)).
+Proof. exact @var_one_pass. Qed.
+
+Theorem C14_cov_one_pass_same_in_every_field : forall R (ops : numops R), is_field ops ->
+  forall xs ys : list R, length xs = length ys -> natR ops (length xs) <> nzero ops ->
+  cov_spec ops xs ys =
+  nsub ops (ndiv ops (sumR ops (map (fun xy => nmul ops (fst xy) (snd xy)) (combine xs ys)))
+                     (natR ops (length xs)))
+           (nmul ops (mean_spec ops xs) (mean_spec ops ys)).
+Proof. exact @cov_one_pass. Qed.
+
 (* non-vacuity of the extra hypothesis of C14_softmax_textbook: the real exponential *)
 Example C14_nonvacuous_session3 :
   ordered_exp_field Rops Rlt /\
@@ -287,3 +312,5 @@ Print Assumptions C14_softmax_textbook.
 Print Assumptions C14_softmax_order_iff.
 Print Assumptions C14_f1_zero.
 Print Assumptions C14_f1_on_nonnegatives.
+Print Assumptions C14_var_one_pass_same_in_every_field.
+Print Assumptions C14_cov_one_pass_same_in_every_field.
